@@ -99,3 +99,24 @@ def gates_of(case, pos):
         for h in [op[1] for op in prog[:k - 1] if op[0] == "a"]:
             gates.append([role_of(h), role_of(want)])
     return gates
+
+
+def shape_of(progs):
+    """Canonical form of a case for TLC: programs ordered, locks renamed l1, l2, .. in order of first appearance.
+    -> (shape, swapped)"""
+    def ren(ps):
+        names = {}
+        out = []
+        for p in ps:
+            q = []
+            for op, l in p:
+                if l not in names:
+                    names[l] = "l%d" % (len(names) + 1)
+                q.append([op, names[l]])
+            out.append(q)
+        return out
+    a = ren(progs)
+    b = ren(list(reversed(progs)))
+    if json.dumps(b) < json.dumps(a):
+        return b, True
+    return a, False
